@@ -432,7 +432,10 @@ def lockstep_filtered(ctx, res: Result):
     Histories: drained and bursty (the model is the full Pipeline LTS, not only the drained regime)."""
     from harness import pipe
     # does the checkout under test carry the repair of F10 (directories moved out of a recursive watch are forgotten)?
-    moveout_fixed = "_moved_out_candidate" in (core.REPO / "src" / "watchdog" / "observers" / "inotify_c.py").read_text()
+    src_c = (core.REPO / "src" / "watchdog" / "observers" / "inotify_c.py").read_text()
+    moveout_fixed = "_moved_out_candidate" in src_c
+    # ... and the repair of F10e (Inotify._add_watch deletes the stale key of a descriptor that comes back under another path)?
+    relabel_fixed = "known_as" in src_c
     rng = ctx.rng("lockstep")
     singles, pairs, rand = filter_universe(ctx, 20)
     filters = singles + (pairs + rand if ctx.thorough else pairs[::9] + rand[:4])
@@ -456,7 +459,7 @@ def lockstep_filtered(ctx, res: Result):
             # pipe.Run.model_case with the filter's mask and class filter in place of ("all", "none")
             root = os.fsencode(run.rootp)
             cfg = [recursive, full, pipe.DELAY_UNITS, root, mask_of[(tuple(F), recursive)], True, True, True, [],
-                   [Atom(x) for x in F], moveout_fixed]
+                   [Atom(x) for x in F], moveout_fixed, relabel_fixed]
             ents = [[pth, j + 1, d] for j, (pth, d) in enumerate(run.init_fs)]
             acts = []
             for e in run.log:
